@@ -384,6 +384,15 @@ impl<T: Transport + 'static> SyncEngine<T> {
             );
         }
 
+        // Deletions are planned against everything the scan found: a destination entry whose
+        // counterpart exists in the source must survive --delete even when a filter or size
+        // bound keeps that source entry out of this run
+        let scanned_files: Vec<_> = if self.delete {
+            all_files.clone()
+        } else {
+            Vec::new()
+        };
+
         // Filter files by size and exclude patterns
         // Also track excluded directories to filter their children (rsync behavior)
         let mut excluded_dirs: Vec<PathBuf> = Vec::new();
@@ -543,7 +552,7 @@ impl<T: Transport + 'static> SyncEngine<T> {
 
         // Plan deletions if requested
         if self.delete {
-            let deletions = planner.plan_deletions(&source_files, destination);
+            let deletions = planner.plan_deletions(&scanned_files, destination);
 
             // Apply deletion safety checks
             if !deletions.is_empty() && !self.force_delete {
